@@ -1,0 +1,25 @@
+//go:build verif
+
+// Machine-checked contracts of the lifts in this plugin (C18): each operator is ro.Map / ro.MapErr around one
+// call of the wrapped function; the lambda must call it exactly once with the item and return its results.
+// Generated once by `rovc liftgen`, reviewed, and kept as the specification. Comments only.
+
+package rojson
+
+
+//@ func Marshal$1
+//@   props C18
+//@   maypanic
+//@   track call.*
+//@   ensures [calls-the-wrapped-function-once|C18] count(call.ANY) == 1 && called(call.Marshal)
+//@   ensures [passes-the-item-and-the-operator-parameters|C18] arg(call.Marshal, 0) == v
+//@   ensures [returns-its-results|C18] result0 == res(call.Marshal, 0) && result1 == res(call.Marshal, 1)
+
+//@ func Unmarshal$1
+//@   props C18
+//@   maypanic
+//@   track call.*
+//@   ensures [calls-the-wrapped-function-once|C18] count(call.ANY) == 1 && called(call.Unmarshal)
+//@   ensures [passes-the-item-and-the-operator-parameters|C18] arg(call.Unmarshal, 0) == v
+//@   ensures [returns-its-error|C18] result1 == res(call.Unmarshal, 0)
+
